@@ -706,6 +706,28 @@ def _strip_comments(t):
 
 # ------------------------------------------------------------------------------- the C06 check
 
+def check_pragma_text(src, ast, got_texts):
+    """"pragma text verbatim", from the SOURCE: the text the graph carries for the i-th pragma is what follows the
+    directive word (`pragma` / `#pragma`) in the source span of the i-th pragma statement — not what the accessor
+    `pragma_text()` says (the typed-AST dump is produced by that accessor)"""
+    out = []
+    bsrc = src.encode("utf-8")
+    spans = []
+
+    def f(n, _):
+        if n[0] == "PragmaStatement":
+            spans.append((int(n[1]), int(n[2])))
+    _walk(ast, f)
+    if len(spans) != len(got_texts):
+        return out
+    for (s_, e_), g in zip(spans, got_texts):
+        text = bsrc[s_:e_].decode("utf-8", "replace")
+        body = text[7:] if text.startswith("#pragma") else (text[6:] if text.startswith("pragma") else None)
+        if body is not None and g != body:
+            out.append(("C06", "pragma_verbatim", "pragma %r: the graph carries %r, the source says %r" % (text, g, body)))
+    return out
+
+
 def check(src, ast_line, sema_line):
     """-> list of (property_id, check_name, detail); [] when nothing is wrong or nothing is checkable
     (syntax errors, panic, unsupported include: other properties' business)"""
@@ -718,6 +740,19 @@ def check(src, ast_line, sema_line):
     exp = exp_stmts(ast[3])
     out = []
     out += check_if_branches(src, ast)
+    try:
+        ptexts = []
+
+        def g_(n):
+            if isinstance(n, (list, tuple)):
+                if len(n) >= 1 and isinstance(n[0], str) and n[0].startswith("Pragma:"):
+                    ptexts.append(n[0][7:])
+                for c in n:
+                    g_(c)
+        g_(got)
+        out += check_pragma_text(src, ast, ptexts)
+    except Exception:
+        pass
     if len(exp) != len(got):
         out.append(("C06", "top_level_order",
                     "expected %d statements, graph has %d: expected kinds %s, got %s"
